@@ -143,7 +143,8 @@ Definition reenc_int (signed : bool) (bits : Z) (s : bytes) : res tv :=
       (if neg then (if u =? 0 then Dom else Bad)
        else if z <? 2 ^ bits then Ok (TNum (print_int z)) else Bad).
 
-(* the canonical spellings the library writes for the leaves whose readers are not modelled *)
+(* ---- uuid.UUID: UnmarshalText -> uuid.Parse (repo) -> github.com/google/uuid Parse; written as the string it holds ---- *)
+(* the form the library writes: lower-case hexadecimal digits in groups of 8-4-4-4-12 *)
 Definition is_hex_lower (b : byte) : bool := is_digit b || ((97 <=? bZ b) && (bZ b <=? 102)).
 Fixpoint uuid_shape (pos : nat) (s : bytes) : bool :=
   match s with
@@ -154,7 +155,80 @@ Fixpoint uuid_shape (pos : nat) (s : bytes) : bool :=
   end.
 Definition canonical_uuid (s : bytes) : bool := is_nil s || uuid_shape 0 s.
 
-(* YYYY-MM-DDTHH:MM:SS with a real calendar date (year >= 1) and a real time of day *)
+(* xvalues of google/uuid (a hexadecimal digit in either case), composed with encodeHex (lower case) *)
+Definition hex_lower_of (b : byte) : option byte :=
+  let z := bZ b in
+  if is_hex_lower b then Some b
+  else if (65 <=? z) && (z <=? 70) then Some (byte_of_Z (z + 32))
+  else None.
+Definition is_hex (b : byte) : bool := match hex_lower_of b with Some _ => true | None => false end.
+Definition lower_hex (b : byte) : byte := match hex_lower_of b with Some c => c | None => b end.
+
+(* n hexadecimal digits (written back in lower case) and what follows them *)
+Fixpoint hex_run (n : nat) (s : bytes) : option (bytes * bytes) :=
+  match n with
+  | O => Some ([], s)
+  | S n' =>
+    match s with
+    | [] => None
+    | b :: r =>
+      match hex_lower_of b, hex_run n' r with
+      | Some c, Some (h, rest) => Some (c :: h, rest)
+      | _, _ => None
+      end
+    end
+  end.
+Definition dash_then (n : nat) (s : bytes) : option (bytes * bytes) :=
+  match s with
+  | b :: r => if Byte.eqb b c_dash then
+                match hex_run n r with Some (h, rest) => Some (c_dash :: h, rest) | None => None end
+              else None
+  | [] => None
+  end.
+(* xxxxxxxx-xxxx-xxxx-xxxx-xxxxxxxxxxxx at the head of s: bytes 8, 13, 18, 23 are hyphens, the sixteen pairs
+   are hexadecimal; whatever follows the 36 bytes is not looked at *)
+Definition uuid_body (s : bytes) : option bytes :=
+  match hex_run 8 s with
+  | Some (g1, r1) =>
+    match dash_then 4 r1 with
+    | Some (g2, r2) =>
+      match dash_then 4 r2 with
+      | Some (g3, r3) =>
+        match dash_then 4 r3 with
+        | Some (g4, r4) =>
+          match dash_then 12 r4 with
+          | Some (g5, _) => Some (g1 ++ g2 ++ g3 ++ g4 ++ g5)%list
+          | None => None
+          end
+        | None => None
+        end
+      | None => None
+      end
+    | None => None
+    end
+  | None => None
+  end.
+(* the 8-4-4-4-12 grouping of 32 digits *)
+Definition hyphenate (h : bytes) : bytes :=
+  (firstn 8 h ++ c_dash :: firstn 4 (skipn 8 h) ++ c_dash :: firstn 4 (skipn 12 h) ++ c_dash :: firstn 4 (skipn 16 h)
+   ++ c_dash :: skipn 20 h)%list.
+Definition urn_prefix : bytes := bs "urn:uuid:".
+(* the text the field holds after reading s (None: an error).  By length: "" stays ""; 36 = the standard
+   form; 45 = a prefix equal to "urn:uuid:" up to ASCII case (strings.EqualFold: no letter of the prefix has
+   a non-ASCII case variant) and the standard form; 38 = ANY byte, the standard form, ANY byte ("{...}", but
+   the braces are not checked); 32 = bare digits; every other length is refused *)
+Definition parse_uuid (s : bytes) : option bytes :=
+  let n := length s in
+  if is_nil s then Some []
+  else if Nat.eqb n 36 then uuid_body s
+  else if Nat.eqb n 45 then (if fold_eq (firstn 9 s) urn_prefix then uuid_body (skipn 9 s) else None)
+  else if Nat.eqb n 38 then uuid_body (tl s)
+  else if Nat.eqb n 32 then
+    match hex_run 32 s with Some (h, _) => Some (hyphenate h) | None => None end
+  else None.
+
+(* ---- cal.DateTime ---- *)
+(* the form the library writes: YYYY-MM-DDTHH:MM:SS with a real calendar date and a real time of day *)
 Definition two_digits (a b : byte) : option Z :=
   if is_digit a && is_digit b then Some (dv a * 10 + dv b) else None.
 Definition canonical_datetime (s : bytes) : bool :=
@@ -265,7 +339,7 @@ Definition reenc_leaf (l : leaf) (j : tv) : res tv :=
   | LDate, _ => Bad
   | LDateTime, TStr s => if canonical_datetime s then Ok (TStr s) else Dom
   | LDateTime, _ => Dom
-  | LUUID, TStr s => if canonical_uuid s then Ok (TStr s) else Dom
+  | LUUID, TStr s => match parse_uuid s with Some c => Ok (TStr c) | None => Bad end
   | LUUID, TNull => Ok (TStr [])
   | LUUID, _ => Bad
   | LSig, TStr s => if canonical_sig s then Ok (TStr s) else Dom
